@@ -1,11 +1,15 @@
 """C07 - copying never disturbs the tree; extraction is faithful and loses nothing."""
-from contracts import k_order
+from contracts import k_order, k_copy
+from pyvc.contract import verify_all
 from pyvc import native
 
 
 def run(rep, tier, seed):
     # structural frame obligation on the get handlers: with cut false nothing reachable from the source tree is written
     k_order.c07_copy_frame(rep, 'C07')
+    # the AST copier under every copy: the result shares no node with the tree read from
+    verify_all(rep, k_copy.specs('C07'))
+    k_copy.listcomp_structural(rep, 'C07')
     for norm, copts in ((False, {}), (True, {}), (False, {'docstr': 'strict'}), (False, {'docstr': False})):
         sec = native.run('b_edit', 'main', {'props': ['C07'], 'tier': tier, 'seed': seed, 'ops': ['copy'],
                                             'norm': norm, 'copy_opts': copts})
